@@ -23,7 +23,10 @@ try:
     t = tests()
 finally:
     run(["git", "checkout", "--", "hy"])
-ok = clean_rc == 0 and bad_rc == 1 and "584 passed" in t
+import re
+base = 585 if run(["git", "merge-base", "--is-ancestor", "745bef6", "HEAD"]).returncode == 0 else 584
+m = re.search(r"(\d+) passed", t)
+ok = clean_rc == 0 and bad_rc == 1 and m is not None and int(m.group(1)) >= base
 print(f"{prop} {name}: demo clean rc={clean_rc} seeded rc={bad_rc} tests: {t} -> {'OK' if ok else 'REJECT'}")
 if ok:
     dst = os.path.join("/verif/seeded", f"{prop}-{name}")
